@@ -20,6 +20,7 @@ go test -vet=off -count=1 ./$pkg 2>&1 | tail -2
 git stash pop -q
 rm -f $pkg/zz_demo_test.go
 echo "== checks on /repo with the patch"
+[ -z "$(git -C /repo status --short)" ] || { echo "REFUSING: /repo has uncommitted changes"; exit 1; }
 cd /repo && git apply /verif/seeded/$id/patch.diff || { echo "PATCH DOES NOT APPLY"; exit 1; }
 for c in $checks; do (cd /verif && ./check $c quick 2>&1 | grep -E 'VIOLATION|property ' | cut -c1-260); done
 git -C /repo checkout -- .
